@@ -16,8 +16,10 @@
    neighbour lemma, completeness), from_context for every algorithm choice. *)
 From Coq Require Import Permutation.
 From FCA Require Import Base.ListSet Model.BinTable Model.FormalContext Model.ConceptConstruction
-     Spec.Galois Spec.Closure Corr.C02 Lemmas.C02 Lemmas.C02_Sofia Lemmas.C02_CbO Lemmas.C02_CbOModel
-     Lemmas.C02_CloseByOne Lemmas.C02_Lindig Lemmas.C02_LindigComplete Lemmas.C02_FromContext Lemmas.C02_Check.
+     Model.ConceptConstructionStack Model.LatticeOrder Model.FromContextLattice
+     Spec.Galois Spec.Closure Spec.LatticeOrderSpec Corr.C02 Lemmas.C02 Lemmas.C02_Sofia Lemmas.C02_CbO Lemmas.C02_CbOModel
+     Lemmas.C02_CloseByOne Lemmas.C02_Lindig Lemmas.C02_LindigComplete Lemmas.C02_FromContext Lemmas.C02_Check Lemmas.C02_Stack Lemmas.C02_LindigCovers
+     Lemmas.C02_FromContextLatticeBase Lemmas.C02_FromContextLattice.
 
 (* ---- FormalConcept.from_objects closes an object set (any back-end) *)
 Theorem C02_from_objects_closes : forall K A,
@@ -160,6 +162,86 @@ Theorem C02_check_meaning : forall c l,
 Proof. exact exactly_all_concepts_spec. Qed.
 Print Assumptions C02_check_meaning.
 
+(* ---- the code's explicit stack.  Model/ConceptConstructionStack.v transcribes the two CbO
+        generators literally (deque of combinations, pop from the right, children pushed for
+        g = n-1 .. last, intents_found as state, one unit of fuel per loop iteration).  With fuel
+        >= n_objs * (number of concepts) + 1 the loop ends and yields exactly the sequence of the
+        pre-order recursion of Model/ConceptConstruction.v *)
+Theorem C02_cbo_stack_is_recursion : forall K fuel,
+  wf (k_table K) -> k_n K * length (concepts_spec (k_table K)) + 1 <= fuel ->
+  cbo_fbarray_stack K fuel = SDone (cbo_fbarray K) /\
+  cbo_objectwise_stack K fuel = SDone (cbo_objectwise K).
+Proof. exact cbo_stack_is_recursion. Qed.
+Print Assumptions C02_cbo_stack_is_recursion.
+
+(* the fuel bound in closed form (what the correspondence check runs with): m * 2^m + 1 for any
+   m >= n_objs *)
+Theorem C02_cbo_stack_fuel_bound : forall K m,
+  wf (k_table K) -> k_n K <= m ->
+  cbo_fbarray_stack K (stack_fuel m) = SDone (cbo_fbarray K) /\
+  cbo_objectwise_stack K (stack_fuel m) = SDone (cbo_objectwise K).
+Proof. exact cbo_stack_fuel_enough. Qed.
+Print Assumptions C02_cbo_stack_fuel_bound.
+
+Theorem C02_close_by_one_stack : forall K m,
+  wf (k_table K) -> 0 < k_w K -> k_n K <= m -> k_w K <= m ->
+  close_by_one_stack K (stack_fuel m) = SDone (close_by_one K).
+Proof. exact close_by_one_stack_eq. Qed.
+Print Assumptions C02_close_by_one_stack.
+
+(* the machine and its equivalence with the recursion are generic in what one loop iteration
+   does ([visit]); the only requirement is that the extent tuple built from a combination
+   contains the object added last *)
+Theorem C02_dfs_stack_generic : forall (S Y : Type) (n : nat)
+    (visit : S -> list nat -> option (Y * list nat * S)),
+  (forall st comb y E' st' g r, visit st comb = Some (y, E', st') -> rev comb = g :: r -> In g E') ->
+  forall st0 y0 E0 st1 fuel,
+  visit st0 [] = Some (y0, E0, st1) ->
+  n * length (y0 :: fst (dfs_rec S Y visit E0 (seq 0 n) st1)) + 1 <= fuel ->
+  dfs S Y n visit fuel st0 = SDone (y0 :: fst (dfs_rec S Y visit E0 (seq 0 n) st1)).
+Proof. exact dfs_equiv_bound. Qed.
+Print Assumptions C02_dfs_stack_generic.
+
+(* ---- Lindig's neighbours are EXACTLY the upper covers (every iteration permutation) *)
+Theorem C02_lindig_neighbours_exact : forall sd ord,
+  (forall l, Permutation (ord l) l) ->
+  (forall A, in_range (s_n sd) A -> in_range (s_w sd) (s_int sd A)) ->
+  (forall A, in_range (s_n sd) A -> s_int sd (s_ext sd (s_int sd A)) = s_int sd A) ->
+  (forall B, in_range (s_w sd) B -> In (s_ext sd B) (sublists (seq 0 (s_n sd)))) ->
+  (forall A, in_range (s_n sd) A -> incl A (cl sd A)) ->
+  (forall A A', in_range (s_n sd) A -> in_range (s_n sd) A' -> incl A A' -> incl (cl sd A) (cl sd A')) ->
+  forall c N, closedc sd (c_ext_i c) ->
+  ((exists x, In x (direct_super_concepts sd ord c) /\ c_ext_i x = N) <-> is_cover sd (c_ext_i c) N).
+Proof. exact dsc_exact. Qed.
+Print Assumptions C02_lindig_neighbours_exact.
+
+(* ---- END TO END: the object ConceptLattice.from_context returns (Model/FromContextLattice.v:
+        algorithm choice; for 'CbO' / 'Sofia' sort_concepts + the order computed lazily by POSet's
+        cache-free routines over __le__ (the constructor ignores subconcepts_dict); for the default
+        / 'Lindig' lindig_algorithm's index / children_dict / parents_dict bookkeeping, the
+        constructor's closure of the cover dictionary and the re-sorting).  For every
+        well-formed table, back-end, algorithm choice, iteration order of every Python set
+        involved ([ord], [cord]: any permutations; [pick]: any choice) there is a closure-loop
+        budget k with which the model returns a lattice v such that [lattice_ok]:
+          (a) lv_concepts v lists exactly the concepts of the table, each once,
+          (b) by non-increasing extent size, cached top = index 0 = all objects, cached bottom =
+              last index = the objects having every attribute,
+          (c) children / parents of every index are the lower / upper covers w.r.t. extent
+              inclusion, descendants / ancestors the strictly smaller / larger extents
+              (Spec/LatticeOrderSpec.v).
+        Every hypothesis of the C03 lemmas used (lindig_path_total, lindig_top_bottom, listing,
+        lattice_order_is_inclusion) is discharged here - in particular that lindig_algorithm's
+        children_dict holds exactly the lower covers. *)
+Theorem C02_from_context_lattice : forall K algo ie lmax ord pick cord,
+  wf (k_table K) -> 0 < k_w K ->
+  algo <= 2 \/ length (concepts_spec (k_table K)) <= lmax ->
+  (forall l, Permutation (ord l) l) -> (forall q, q <> [] -> pick q < length q) ->
+  (forall l, Permutation (cord l) l) ->
+  exists k v, from_context_lattice_with K algo ie lmax ord pick cord k = LView v /\
+              lattice_ok (k_table K) v.
+Proof. exact from_context_lattice_ok. Qed.
+Print Assumptions C02_from_context_lattice.
+
 (* ---- non-vacuity: a tall 4x3 table with a duplicate row, nested rows and an empty column, and
         its wide transpose, meet the hypotheses; the miners return its 4 concepts *)
 Definition ex_tall : table :=
@@ -189,4 +271,25 @@ Proof.
   repeat split; try (vm_compute; reflexivity); try (vm_compute; lia);
     try (repeat constructor; fail);
     try (intros x [H|[]]; subst; vm_compute; lia).
+Qed.
+
+(* the explicit stack on the same table: 10 loop iterations suffice, 3 do not; and the lattice
+   from_context returns (Lindig over intents, closure budget 2^3 rounds; 2^1 rounds are too few) *)
+Definition view_summary (r : lattice_res) :=
+  match r with
+  | LView v => Some (lv_concepts v, map (lv_children v) (seq 0 5), map (lv_parents v) (seq 0 5),
+                     lv_top v, lv_bottom v)
+  | _ => None
+  end.
+
+Example C02_nonvacuous_stack_and_lattice :
+  cbo_fbarray_stack (ex_K BBitarray) 10 = SDone (cbo_fbarray (ex_K BBitarray)) /\
+  cbo_fbarray_stack (ex_K BBitarray) 3 = SOutOfFuel /\
+  cbo_objectwise_stack (ex_K BLists) (stack_fuel 4) = SDone (cbo_objectwise (ex_K BLists)) /\
+  view_summary (from_context_lattice (ex_K BNumpy) 2 (Some false) 0 3)
+    = Some ([([0; 1; 2; 3], []); ([0; 1; 2], [0]); ([1; 2; 3], [1]); ([1; 2], [0; 1]); ([], [0; 1; 2])],
+            [[1; 2]; [3]; [3]; [4]; []], [[]; [0]; [0]; [1; 2]; [3]], Some 0, Some 4) /\
+  from_context_lattice (ex_K BNumpy) 2 (Some false) 0 1 = LOutOfFuel.
+Proof.
+  do 4 (split; [vm_compute; reflexivity|]). vm_compute. reflexivity.
 Qed.
